@@ -626,7 +626,97 @@ func runXkill(r *rand.Rand, dir string, thorough bool) {
 					}
 				}
 				if err == nil || !killedBySig { // the k-th call never happened: the sweep of this group is complete
+					// the same sweep with the signals that ASK the process to die (it cancels its work and exits): the destination
+					// is its previous state, or - when the signal came too late to matter - the complete blob with exit status 0
+					if !long && (strings.HasPrefix(g, "pwrite64") || g == "openat") {
+						step := 1
+						if !thorough && k > 24 {
+							step = k / 24
+						}
+						for kk := 1; kk < k; kk += step {
+							scen++
+							os.RemoveAll(ddir)
+							os.MkdirAll(ddir, 0755)
+							if !absent {
+								must(os.WriteFile(dest, prev, 0644))
+							}
+							sg := []string{"SIGTERM", "SIGINT"}[kk%2]
+							cmd := exec.Command("strace", "-f", "-o", "/dev/null", "-e", "trace="+g, "-e", fmt.Sprintf("inject=%s:signal=%s:when=%d", g, sg, kk), "--",
+								binary, "--config", fx.cfg, "extract", "-n", n, "-s", fx.store, fx.index, dest)
+							cmd.Env = append(os.Environ(), "HOME=/nonexistent")
+							out, err := cmd.CombinedOutput()
+							got, rerr := os.ReadFile(dest)
+							state := "other"
+							switch {
+							case rerr != nil && absent:
+								state = "prev"
+							case rerr != nil:
+								state = "gone"
+							case bytes.Equal(got, prev):
+								state = "prev"
+							case bytes.Equal(got, fx.data):
+								state = "new"
+							}
+							w.Emit(J{"ev": "xkill", "scen": scen, "n": n, "absent": absent, "longname": false, "sys": g + " " + sg, "k": kk, "survived": err == nil, "dest": state, "leftover_tmp": 0, "out": firstLine(string(out))})
+						}
+					}
 					break
+				}
+			}
+		}
+	}
+	// an index of one or two chunks, the signal at an early call (while the index is read, before the workers start, between the two
+	// chunks): the destination keeps its previous content unless the command reports success with the complete blob
+	for _, nchunks := range []int{1, 2} {
+		small := make([]byte, 700*nchunks)
+		r.Read(small)
+		sst := newStore(filepath.Join(fx.dir, "smallstore"), false)
+		var sidx desync.Index
+		var pos uint64
+		for c := 0; c < nchunks; c++ {
+			ch := desync.NewChunk(small[c*700 : (c+1)*700])
+			must(sst.StoreChunk(ch))
+			sidx.Chunks = append(sidx.Chunks, desync.IndexChunk{ID: ch.ID(), Start: pos, Size: 700})
+			pos += 700
+		}
+		sidx.Index = desync.FormatIndex{FeatureFlags: desync.CaFormatExcludeNoDump | desync.CaFormatSHA512256, ChunkSizeMin: 512, ChunkSizeAvg: 2048, ChunkSizeMax: 8192}
+		sindex := filepath.Join(fx.dir, "small.caibx")
+		fo, err := os.Create(sindex)
+		must(err)
+		_, err = sidx.WriteTo(fo)
+		must(err)
+		fo.Close()
+		for _, n := range []string{"1", "3"} {
+			for _, g := range []string{"openat", "read,pread64", "futex"} {
+				top := 25
+				if thorough {
+					top = 120
+				}
+				for k := 1; k <= top; k++ {
+					scen++
+					ddir := filepath.Join(fx.dir, "xs")
+					os.RemoveAll(ddir)
+					os.MkdirAll(ddir, 0755)
+					dest := filepath.Join(ddir, "out")
+					prev := []byte("previous content of the destination")
+					must(os.WriteFile(dest, prev, 0644))
+					sg := []string{"SIGTERM", "SIGINT"}[k%2]
+					cmd := exec.Command("strace", "-f", "-o", "/dev/null", "-e", "trace="+g, "-e", fmt.Sprintf("inject=%s:signal=%s:when=%d", g, sg, k), "--",
+						binary, "extract", "-n", n, "-s", filepath.Join(fx.dir, "smallstore"), sindex, dest)
+					cmd.Env = append(os.Environ(), "HOME=/nonexistent")
+					out, err := cmd.CombinedOutput()
+					got, rerr := os.ReadFile(dest)
+					state := "other"
+					switch {
+					case rerr != nil:
+						state = "gone"
+					case bytes.Equal(got, prev):
+						state = "prev"
+					case bytes.Equal(got, small):
+						state = "new"
+					}
+					w.Emit(J{"ev": "xkill", "scen": scen, "n": n, "absent": false, "longname": false, "sys": fmt.Sprintf("%d-chunk index, %s %s", nchunks, g, sg), "k": k, "survived": err == nil, "dest": state,
+						"leftover_tmp": 0, "out": firstLine(string(out))})
 				}
 			}
 		}
@@ -760,7 +850,14 @@ func runInplace(r *rand.Rand, dir string, thorough bool) {
 				for _, id := range cs2.ids {
 					ref = append(ref, fx.ids[id])
 				}
-				w.Emit(J{"ev": "inplace", "scen": scen, "n": n, "start": start, "k": k, "killed": killed, "requests_before_kill": cs.n, "ids": posIDs, "valid": valid, "refetched": ref,
+				// the chunks the killed run had been given before the request at which it was killed
+				answered := []int{}
+				for i, id := range cs.ids {
+					if i < k-1 {
+						answered = append(answered, fx.ids[id])
+					}
+				}
+				w.Emit(J{"ev": "inplace", "scen": scen, "n": n, "start": start, "k": k, "killed": killed, "requests_before_kill": cs.n, "ids": posIDs, "valid": valid, "refetched": ref, "answered": answered,
 					"rerun_ok": err2 == nil, "final_ok": bytes.Equal(got2, fx.data), "out": firstLine(string(out2))})
 			}
 		}
